@@ -22,8 +22,10 @@ OPAQUE = {
             "created": ("Num", "{0}.created"),
             "server_key": ("Str", "(← Rec.attrServerKey lower {0})", "raises"),  # DNSService only
             "alias": ("Str", "(← Rec.attrAlias {0})", "raises"),  # DNSPointer only
+            "alias_key": ("Str", "(← Rec.attrAliasKey lower {0})", "raises"),  # DNSPointer only
         },
         "methods": {
+            "get_expiration_time": (["Nat"], "Num", "(Rec.expirationTime {0} {1})"),
             "is_expired": (["Num"], "Bool", "(Rec.isExpired {0} {1})"),
             "is_stale": (["Num"], "Bool", "(Rec.isStale {0} {1})"),
             "is_recent": (["Num"], "Bool", "(Rec.isRecent {0} {1})"),
@@ -67,7 +69,8 @@ OPAQUE = {
         # the `Zeroconf` instance as the outgoing queue uses it: a handle to the loop and to `async_send` (effects, see EFFECTS)
         "lean": "Unit",
         "immutable": True,
-        "attrs": {"loop": ("LoopHandle", "()")},
+        # `zc.done` is an environment reading: the parameter `zc_done` of the function that reads it
+        "attrs": {"loop": ("LoopHandle", "()"), "done": ("Bool", "zc_done")},
     },
     "LoopHandle": {
         # the event loop: `time()` is an environment reading (parameter `loop_time_ms`, in milliseconds: the float seconds of
@@ -76,6 +79,13 @@ OPAQUE = {
         "immutable": True,
         "attrs": {},
         "methods": {"time": ([], "Frac1000", "loop_time_ms")},
+    },
+    "TimerHandle": {
+        # an `asyncio.TimerHandle`: what `call_later` / `call_at` return; `cancel()` is an effect
+        "lean": "Unit",
+        "immutable": True,
+        "always_truthy": True,
+        "attrs": {},
     },
     "Svc": {
         # a registered ServiceInfo: the model's `Svc` has a non-optional server (`_add` asserts it, DESIGN §7 C03)
